@@ -182,7 +182,7 @@ def check_example(case, stats):
     text, cell, expected = EXAMPLES[case["which"]]
     try:
         sim = _load(text)
-        sim.run()
+        core.call_with_limit(sim.run, 120, "run-does-not-return", case, "run() of a documented example program")
     except Exception as ex:
         raise Violation("example-fails", case, f"{type(ex).__name__}: {ex!r}")
     got = int(sim.state.memory.read_halfword(cell))
